@@ -18,7 +18,8 @@ THEOREMS = {
 
 RULE = ("scenarios = timed external events over the alphabet {connection made/lost, caller i sends (priority, max_retries 0-5, "
         "timeout in {0.125,0.5,0.515,1,1.5,5,20,30 s}, wait_for_reply), packet received (echo, reply, foreign gateway's packet with "
-        "the same header, reply to another gateway, unrelated)}, a per-write transport plan (latency 0/15 ms/0.5 s/1 s, write failure, "
+        "the same header, reply to another gateway, unrelated), caller i cancelled from OUTSIDE 15 ms - 4.7 s after its call (a fifth of the scenarios)}; "
+        "every other scenario's callers go through Engine.async_send_cmd around the same protocol; a per-write transport plan (latency 0/15 ms/0.5 s/1 s, write failure, "
         "echo after 15-515 ms or lost, reply after 31 ms-1 s or lost), tie policy fifo/lifo among equal deadlines, gateway QoS mode "
         "(disable_qos True/None/False); all times on a 1/64 s grid so that timers coincide exactly; 1-3 callers (4%: 6 or 34); "
         "non-trivial = at least one frame was written; distinct = by scenario")
